@@ -21,7 +21,8 @@ META = {
         'scoped queries or as placeholders. R7: every Word/Sense/Synset the library builds is handed the Wordnet of the object it was '
         'reached from (an omitted `_wordnet` falls back to a default-mode Wordnet()). Does not decide which rows SQLite returns for a filter.'),
     'decides': ['SQL scoping of every table occurrence', 'scope provenance at every call site',
-                'navigation discipline of element methods', 'default-mode scope formula', 'constructor provenance'],
+                'navigation discipline of element methods', 'default-mode scope formula', 'constructor provenance',
+                'scope recomputed per call', 'Wordnet handed on to every constructed element'],
     'not_decided': ['row sets computed by SQLite', 'which lexicons a specifier selects (C08)'],
     'assumptions': ['the importer is the only writer (C05-R3), so writer-side locality facts describe all stored rows'],
 }
